@@ -101,15 +101,16 @@ inductive Rescaler where
   /-- `f_infallible` through `unary` (all slots); `none` = the closure panics -/
   | infallible (f : Int → Option Int)
 
-/-- `make_upscaler::<I, O>` + `apply_decimal_cast`'s precision filter.  `delta_scale` and the
-`is_infallible_cast` sum are `i8` arithmetic (wrapping in release builds). -/
-def upscaler (p1 : Nat) (s1 : Int) (w2 p2 : Nat) (s2 : Int) : Rescaler :=
+/-- `make_upscaler::<I, O>` + `apply_decimal_cast`'s precision filter.  `delta_scale` is `i8`
+arithmetic (wrapping in release builds); the `is_infallible_cast` sum is computed in `i16`. -/
+def upscaler (w1 p1 : Nat) (s1 : Int) (w2 p2 : Nat) (s2 : Int) : Rescaler :=
   let delta := wrapW 8 (s2 - s1)
   if delta < 0 then .typeError else
   match pow10Table w2 delta.toNat with
   | none => .typeError
   | some mul =>
-    let isInfallible := wrapW 8 ((p1 : Int) + delta) ≤ (p2 : Int)
+    -- `size_of::<I::Native>() <= size_of::<O::Native>()`: the unchecked closure must not narrow
+    let isInfallible := w1 ≤ w2 ∧ (p1 : Int) + delta ≤ (p2 : Int)
     if isInfallible then
       .infallible (fun x => if nativeOk w2 x then some (wrapW w2 (x * mul)) else none)
     else
@@ -131,7 +132,7 @@ def downscaler (w1 p1 : Nat) (s1 : Int) (w2 p2 : Nat) (s2 : Int) : Rescaler :=
   match pow10Table w1 delta.toNat with
   | none => .zeros
   | some div =>
-    let isInfallible := wrapW 8 ((p1 : Int) - delta) < (p2 : Int)
+    let isInfallible := w1 ≤ w2 ∧ (p1 : Int) - delta < (p2 : Int)
     if isInfallible then
       .infallible (fun x => let y := downRound div.toNat x; if nativeOk w2 y then some y else none)
     else
@@ -142,7 +143,7 @@ def downscaler (w1 p1 : Nat) (s1 : Int) (w2 p2 : Nat) (s2 : Int) : Rescaler :=
 /-- `cast_decimal_to_decimal_same_type` / `cast_decimal_to_decimal` dispatch -/
 def decToDec (w1 p1 : Nat) (s1 : Int) (w2 p2 : Nat) (s2 : Int) : Rescaler :=
   if w1 = w2 ∧ s1 = s2 ∧ p1 ≤ p2 then .identity
-  else if s1 ≤ s2 then upscaler p1 s1 w2 p2 s2
+  else if s1 ≤ s2 then upscaler w1 p1 s1 w2 p2 s2
   else downscaler w1 p1 s1 w2 p2 s2
 
 /-- `cast_integer_to_decimal` for a source integer type with range `[lo, hi]`:
